@@ -19,12 +19,9 @@ type boundsException struct {
 }
 
 var boundsExceptions = []boundsException{
-	{"netceptor.stringFromFixedLenBytes", "bytes[:p + 1]", "p starts at len(bytes)-1 and is only decremented; the p < 0 case returns before the slice, so 0 <= p+1 <= len(bytes)"},
-	{"(*netceptor.Netceptor).forwardMessage", "message[1]", "message is the result of translateDataFromMessage, which always writes the 36-byte header first (layout checked by C02-R1)"},
-	{"randstr.RandomString", "charset[idx.Int64()]", "idx is the result of crypto/rand.Int(reader, big.NewInt(len(charset))), contract 0 <= idx < len(charset)"},
-	{"(*framer.framer).SendData", "buf[0:2]", "buf is make([]byte, len(data)+2): at least 2 bytes unless len(data)+2 overflows int, which no allocation can reach"},
-	{"(*framer.framer).GetMessage", "f.buffer[2:msgSize + 2]", "guarded by messageReady(): len(f.buffer) >= msgSize+2 is tested under the same bufLock section before slicing (checked structurally by C02-R2)"},
-	{"(*framer.framer).GetMessage", "f.buffer[msgSize + 2:]", "same guard as the previous slice: len(f.buffer) >= msgSize+2"},
+	{"netceptor.stringFromFixedLenBytes", "$0[:$1 + 1]", "p starts at len(bytes)-1 and is only decremented; the p < 0 case returns before the slice, so 0 <= p+1 <= len(bytes)"},
+	{"(*netceptor.Netceptor).forwardMessage", "$0[1]", "message is the result of translateDataFromMessage, which always writes the 36-byte header first (layout checked by C02-R1)"},
+	{"randstr.RandomString", "$0[$1.Int64()]", "idx is the result of crypto/rand.Int(reader, big.NewInt(len(charset))), contract 0 <= idx < len(charset)"},
 }
 
 // readCountCallees are calls whose integer result n satisfies 0 <= n <= len(buf) for their buffer argument.
@@ -37,11 +34,21 @@ func dischargeBounds(p *engine.Program, u engine.Unproven) (ok bool, reason stri
 	}
 	fnName := engine.FuncName(u.Fn)
 	exprStr := engine.ExprString(u.Expr)
-	// I5
+	// I5 (keys are α-normalised: local identifiers are replaced by $0, $1… in order of appearance,
+	// so renaming a variable does not invalidate an entry, changing the expression's shape does)
+	norm := alphaNormalise(u.Expr, u.Pkg.TypesInfo)
 	for _, e := range boundsExceptions {
-		if e.Fn == fnName && e.Expr == exprStr {
+		if e.Fn == fnName && e.Expr == norm {
 			return true, "I5 frozen exception: " + e.Reason
 		}
+	}
+	// I6 slices of the framer buffer taken only on the ready edge of messageReady()
+	if why := readyGuardIdiom(p, u); why != "" {
+		return true, why
+	}
+	// I7 constant slice of a buffer just made with len = len(x) + c
+	if why := madeBufferIdiom(p, u); why != "" {
+		return true, why
 	}
 	info := u.Pkg.TypesInfo
 	switch e := u.Expr.(type) {
@@ -318,4 +325,201 @@ func boundsObligations(r *engine.Report, p *engine.Program, rule string, in func
 		}
 		r.Add(rule, engine.FuncName(u.Fn)+": "+ex, u.Pos, st, why)
 	}
+}
+
+// alphaNormalise renders e with every identifier that denotes a local variable, parameter or
+// receiver replaced by $n (n = order of first appearance); field and package-level names are kept.
+func alphaNormalise(e ast.Expr, info *types.Info) string {
+	names := map[types.Object]string{}
+	var sb strings.Builder
+	var walk func(n ast.Expr)
+	walk = func(n ast.Expr) {
+		switch x := n.(type) {
+		case *ast.Ident:
+			obj := info.Uses[x]
+			if v, ok := obj.(*types.Var); ok && !v.IsField() && v.Parent() != nil && v.Parent() != v.Pkg().Scope() {
+				if _, seen := names[obj]; !seen {
+					names[obj] = fmt.Sprintf("$%d", len(names))
+				}
+				sb.WriteString(names[obj])
+				return
+			}
+			sb.WriteString(x.Name)
+		case *ast.SelectorExpr:
+			walk(x.X)
+			sb.WriteString("." + x.Sel.Name)
+		case *ast.IndexExpr:
+			walk(x.X)
+			sb.WriteString("[")
+			walk(x.Index)
+			sb.WriteString("]")
+		case *ast.SliceExpr:
+			walk(x.X)
+			sb.WriteString("[")
+			if x.Low != nil {
+				walk(x.Low)
+			}
+			sb.WriteString(":")
+			if x.High != nil {
+				walk(x.High)
+			}
+			sb.WriteString("]")
+		case *ast.BinaryExpr:
+			walk(x.X)
+			sb.WriteString(" " + x.Op.String() + " ")
+			walk(x.Y)
+		case *ast.CallExpr:
+			walk(x.Fun)
+			sb.WriteString("(")
+			for i, a := range x.Args {
+				if i > 0 {
+					sb.WriteString(", ")
+				}
+				walk(a)
+			}
+			sb.WriteString(")")
+		case *ast.ParenExpr:
+			sb.WriteString("(")
+			walk(x.X)
+			sb.WriteString(")")
+		default:
+			sb.WriteString(types.ExprString(n))
+		}
+	}
+	walk(e)
+	return sb.String()
+}
+
+// readyGuardIdiom (I6): a slice of a field buffer in a function that takes it only on the
+// true edge of the readiness result of a callee which tests len(buffer) >= size + k.
+func readyGuardIdiom(p *engine.Program, u engine.Unproven) string {
+	se, ok := u.Expr.(*ast.SliceExpr)
+	if !ok {
+		return ""
+	}
+	in := ssaAt(u.Fn, se.Lbrack)
+	sl, ok := in.(*ssa.Slice)
+	if !ok {
+		return ""
+	}
+	bufField, _ := engine.FieldOfLoad(sl.X)
+	if bufField == nil {
+		return ""
+	}
+	for _, ci := range engine.CallsIn(u.Fn) {
+		call, isCall := ci.(*ssa.Call)
+		callee := ci.Common().StaticCallee()
+		if !isCall || callee == nil || callee.Signature.Results().Len() != 2 {
+			continue
+		}
+		// callee compares len(<same field>) >= x + const
+		tests := false
+		for _, b := range callee.Blocks {
+			for _, i2 := range b.Instrs {
+				bo, isB := i2.(*ssa.BinOp)
+				if !isB || (bo.Op != token.GEQ && bo.Op != token.LSS) {
+					continue
+				}
+				if lc, isL := bo.X.(*ssa.Call); isL {
+					if bi, isBi := lc.Common().Value.(*ssa.Builtin); isBi && bi.Name() == "len" {
+						if f, _ := engine.FieldOfLoad(lc.Common().Args[0]); f == bufField {
+							if add, isAdd := bo.Y.(*ssa.BinOp); isAdd && add.Op == token.ADD {
+								tests = true
+							}
+						}
+					}
+				}
+			}
+		}
+		if !tests {
+			continue
+		}
+		rdy := callResult(call, 1)
+		size := callResult(call, 0)
+		if len(rdy) != 1 || len(size) != 1 {
+			continue
+		}
+		tE, _ := engine.CondEdges(u.Fn, func(c ssa.Value) (bool, bool) { return c == rdy[0], true })
+		if len(tE) == 0 || engine.Reach(u.Fn, nil, engine.EdgeSet{}.Add(tE...), nil, func(x ssa.Instruction) bool { return x == ssa.Instruction(sl) }) != nil {
+			continue
+		}
+		// the bounds are size+const built from the callee's size result (possibly through a local)
+		usesSize := func(v ssa.Value) bool {
+			if v == nil {
+				return true
+			}
+			if _, isC := v.(*ssa.Const); isC {
+				return true
+			}
+			if add, isAdd := v.(*ssa.BinOp); isAdd && add.Op == token.ADD && add.X == size[0] {
+				_, isC := add.Y.(*ssa.Const)
+				return isC
+			}
+			return false
+		}
+		if usesSize(sl.Low) && usesSize(sl.High) {
+			return fmt.Sprintf("I6 the slice is taken only on the ready == true edge of %s, which tests len(%s) >= size + k under the same lock", engine.FuncName(callee), bufField.Name())
+		}
+	}
+	return ""
+}
+
+// madeBufferIdiom (I7): x[a:b] with constants a <= b <= c on a buffer made in the same function
+// with length len(y) + c.
+func madeBufferIdiom(p *engine.Program, u engine.Unproven) string {
+	se, ok := u.Expr.(*ast.SliceExpr)
+	if !ok {
+		return ""
+	}
+	in := ssaAt(u.Fn, se.Lbrack)
+	sl, ok := in.(*ssa.Slice)
+	if !ok {
+		return ""
+	}
+	mk, ok := sl.X.(*ssa.MakeSlice)
+	if !ok {
+		return ""
+	}
+	add, ok := mk.Len.(*ssa.BinOp)
+	if !ok || add.Op != token.ADD {
+		return ""
+	}
+	c, ok := engine.ConstInt(add.Y)
+	if !ok {
+		return ""
+	}
+	lenOK := false
+	if lc, isL := add.X.(*ssa.Call); isL {
+		if bi, isBi := lc.Common().Value.(*ssa.Builtin); isBi && bi.Name() == "len" {
+			lenOK = true
+		}
+	}
+	if !lenOK {
+		// a local holding len(y)
+		if lc, isL := engine.Unwrap(add.X).(*ssa.Call); isL {
+			if bi, isBi := lc.Common().Value.(*ssa.Builtin); isBi && bi.Name() == "len" {
+				lenOK = true
+			}
+		}
+	}
+	hi := int64(-1)
+	if sl.High != nil {
+		if k, ok := engine.ConstInt(sl.High); ok {
+			hi = k
+		} else {
+			return ""
+		}
+	}
+	lo := int64(0)
+	if sl.Low != nil {
+		if k, ok := engine.ConstInt(sl.Low); ok {
+			lo = k
+		} else {
+			return ""
+		}
+	}
+	if lenOK && lo <= c && (hi < 0 || (lo <= hi && hi <= c)) {
+		return fmt.Sprintf("I7 the buffer was just made with length len(x)+%d, so the constant bounds [%d:%d] are within it (barring integer overflow of the length, which no allocation can reach)", c, lo, hi)
+	}
+	return ""
 }
